@@ -75,7 +75,7 @@ MStep ==
          oweB == [c \in 1..Len(cells) |->
                     IF judged /\ c \in mine /\ cells[c] # Unbound THEN Before(c) ELSE owe[c]]
          \* `except E as name` variables are excepted (the analysis isolates them): never judged
-         reads   == IF judged /\ n # 0 THEN {c \in rd' : c # 0 /\ cells[c] # Unbound /\ NameOfCell(envs, OwnerOf(envs, c), c) \notin Range(P.hnames)} ELSE {}
+         reads   == IF judged /\ n # 0 THEN {c \in rd' : c # 0 /\ cells[c] # Unbound /\ c \notin hb} ELSE {}
          readBad == {c \in reads : oweB[c] # Nil}
          \* after n executed: written cells start afresh; the others owe live_out(n)
          \* (for a call node the out-obligation is created when the call returns)
